@@ -516,6 +516,7 @@ func (c *cryptoCtx) verdict(rule, fname, construct string, pos token.Pos, it *In
 		return
 	}
 	c.r.OK(rule)
+	c.r.Sample(map[string]any{"rule": rule, "func": fname, "instance": construct, "verdict": "equal to the standard's formula / schedule for all values of the symbolic bits", "term_nodes": it.T.next})
 }
 
 // cellsWritten lists the cells of obj written during the run.
